@@ -43,6 +43,7 @@ int main(int argc, char** argv) {
     else if (a == "--from") from = std::strtol(next(), nullptr, 10);
     else if (a == "--to") to = std::strtol(next(), nullptr, 10);
     else if (a == "--thorough") o.thorough = true;
+    else if (a == "--dry") o.dry = true;
     else if (a == "--emit-plan") emit = next();
     else if (a == "--plan") planpath = next();
     else if (a == "--events") o.events_path = next();
